@@ -27,6 +27,7 @@ structure CWF (i : CIndex) : Prop where
   version : i.version = 1 ∨ i.version = 2
   minShift : i.minShift < 2147483648
   depth : i.depth ≤ 9
+  geom : i.minShift + 3 * i.depth ≤ 62
   aux : i.aux.length < 2147483648
   nrefs : i.refs.length < 2147483648
   bounds : ∀ r, r ∈ i.refs → CRefBounds i.version (csiBinLimit i.depth) r
@@ -276,7 +277,9 @@ theorem readCsi_writeCsi (i : CIndex) (h : CWF i) : readCsi (writeCsi i) = .ok (
   rw [rI32_i32 _ (by omega) (by omega)]
   simp only [show ¬ ((i.minShift : Int) < 0) by omega, if_false]
   rw [rI32_i32 _ (by omega) (by omega)]
-  simp only [show ¬ ((i.depth : Int) < 0) by omega, if_false]
+  have hg := h.geom
+  simp only [show ¬ ((i.depth : Int) < 0) by omega, show ¬ ((i.minShift : Int) + (i.depth : Int) * 3 > 62) by omega,
+    if_false]
   have haux := h.aux
   rw [rI32_i32 _ (by omega) (by omega)]
   simp only
